@@ -39,7 +39,9 @@ TABLE_THEOREMS = ["legendre_table_orthogonal", "legendre_table_orthogonal_integr
                   "newton_table_is_cc_nodal_poly", "newton_table_vanishes_on_nodes", "xi_newton_residual",
                   "bdef_integrals_exact", "quad_constants"]
 FAMILIES = ["poly", "exp", "osc", "lorentz", "gauss", "sqrt_sing", "two_sing", "holes", "kink", "jump"]
-RANGES = [(-1.0, 1.0), (0.0, 1.0), (0.0, 3.5), (-2.0, 5.0)]
+# (the second half: ranges whose end points and midpoints are NOT dyadic - (a+b)/2 -/+ (b-a)/2 is then one ulp off a and b, which
+# made child intervals re-evaluate their parent's end points until the repair c7c4136)
+RANGES = [(-1.0, 1.0), (0.0, 1.0), (0.0, 3.5), (-2.0, 5.0), (0.1, 1.3), (-0.3, 1.1), (0.07, 2.9), (-1.7, 0.3)]
 SLACK = 1e-13
 
 
@@ -50,9 +52,14 @@ def _imports():
 
 
 # ---------------------------------------------------------------------------- integrand families
-def make_family(fam, rng):
+def make_family(fam, rng, reference=False):
     """-> (f vectorised over numpy arrays and scalars, a, b, exact integral, parameter dict)"""
     a, b = rng.choice(RANGES)
+    if reference and fam in ("sqrt_sing", "two_sing", "holes") and (a, b) not in RANGES[:4]:
+        # the REFERENCE algorithm_4 recomputes the end points of child intervals as (a+b)/2 -/+ (b-a)/2 and copies the parent's values
+        # by index: on a non-dyadic range it evaluates an integrand that is non-finite exactly at a node one ulp beside the node
+        # (f = 1e8 instead of inf). Families with non-finite nodes are compared with the reference on dyadic ranges only.
+        a, b = rng.choice(RANGES[:4])
     p = {"a": a, "b": b}
     if fam == "poly":
         deg = rng.randrange(0, 13)
@@ -274,7 +281,7 @@ def diff_case(arg):
         f, a, b, tol = fixed[name]
         p = {}
     else:
-        f, a, b, _, p = make_family(name, rng)
+        f, a, b, _, p = make_family(name, rng, reference=True)
         tol = 10 ** rng.uniform(-10, -3)
     res = {"name": name, "seed": seed, "n_loops": n_loops, "tol": tol, "params": p, "a": a, "b": b, "fail": None,
            "ref": None, "rel_igral": 0.0, "rel_err": 0.0}
@@ -703,7 +710,7 @@ def run(ctx):
     return core.conclude(
         ctx, proof, [tcorr, qcorr], failures, level="other",
         rule="closed form: 8 families (poly deg<=12, exp, sin, Lorentzian, Gaussian, inverse-sqrt end-point singularity with "
-             "f(a)=inf, kink, jump) x seeded parameters, ranges (-1,1),(0,1),(0,3.5),(-2,5), tol log-uniform 1e-10..1e-3, "
+             "f(a)=inf, kink, jump) x seeded parameters, ranges (-1,1),(0,1),(0,3.5),(-2,5) and the non-dyadic (0.1,1.3),(-0.3,1.1),(0.07,2.9),(-1.7,0.3), tol log-uniform 1e-10..1e-3, "
              "delivery sequential (ask 1..40, tell all) or shuffled+partial (tell a random half..all of the outstanding points "
              f"in random order); run to done() or {cap} evaluations; non-trivial = reached done(). differential: test-suite "
              "integrands f0,f7,f21,f24,f63,fdiv and the same families, reference run to convergence or stopped after "
